@@ -676,7 +676,8 @@ class WassersteinCase(Case):
         n_comp = tape.choice("ot.ncomp", [2, 3])
         # memory_size small enough to force block-wise fits (the scratch-file path) most of the time
         lot_dim = ref_size * c.dim
-        rows_per_block = tape.weighted("ot.block", [(3, 2), (3, 3), (2, 4), (1, 1), (2, 10 ** 6)])
+        # 512 rows per block makes the kernels' inner chunk size (max(256, block_size // 64)) smaller than a block
+        rows_per_block = tape.weighted("ot.block", [(3, 2), (3, 3), (2, 4), (1, 1), (1, 512), (2, 10 ** 6)])
         mem = max(1, rows_per_block * lot_dim * 8)
         c.memory_size = f"{mem}" if mem < 10 ** 8 else "2G"
         c.rows_per_block = rows_per_block
@@ -705,7 +706,8 @@ class WassersteinCase(Case):
             if imeth == "generator":
                 c.params["generator_vector_dim"] = c.dim
                 c.params["generator_n_distributions"] = ntrain
-            c.knobs = {"memory_size": [f"{lot_dim * 8}", f"{2 * lot_dim * 8}", f"{3 * lot_dim * 8}", "2G"]}
+            c.knobs = {"memory_size": [f"{lot_dim * 8}", f"{2 * lot_dim * 8}", f"{3 * lot_dim * 8}", f"{300 * lot_dim * 8}",
+                                       f"{512 * lot_dim * 8}", "2G"]}
             if method == "LOT_sinkhorn":
                 c.knobs["sinkhorn_chunk_size"] = [1, 2, 3, 5, 32]
             if method == "HeuristicLinearAlgebra":
@@ -717,7 +719,7 @@ class WassersteinCase(Case):
             c.params = {"n_components": n_comp, "reference_size": ref_size, "metric": c.metric,
                         "memory_size": c.memory_size, "random_state": rs, "n_svd_iter": 3,
                         "chunk_size": tape.choice("ot.chunk", [2, 3, 32])}
-            c.knobs = {"memory_size": [f"{lot_dim * 8}", f"{2 * lot_dim * 8}", "2G"], "chunk_size": [1, 2, 3, 5, 32]}
+            c.knobs = {"memory_size": [f"{lot_dim * 8}", f"{2 * lot_dim * 8}", f"{512 * lot_dim * 8}", "2G"], "chunk_size": [1, 2, 3, 5, 32]}
         else:
             c.cls = ApproximateWassersteinVectorizer
             c.input_method = "spmatrix"
